@@ -1924,3 +1924,67 @@ def elem_key(F, root, b, e, depth=0):
     return None, None, None
 
 
+def payload_leaves(x, path=(), depth=3):
+    """[(component path, E)] of a message aggregate, looking through nested crate-local structs / tuples (a payload
+    packaged as `Variant(Job { a, b })` or `Variant { a, b }` or `Variant(a, b)` yields the same leaves)"""
+    x2 = x.strip() if x.kind == 'call' and not x.proj else x
+    if x2.kind == 'agg' and not x2.proj and len(path) < depth and isinstance(x2.extra, dict) and \
+            x2.extra.get('ak') in ('adt', 'tuple') and not x2.name.startswith('std::') and x2.args:
+        names = x2.extra.get('fields') or [str(i) for i in range(len(x2.args))]
+        out = []
+        for nm, y in zip(names, x2.args):
+            out += payload_leaves(y, path + (str(nm),), depth)
+        return out
+    return [(path, x)]
+
+
+def paths_to(body, target, start=0, limit=400):
+    """condition lists of the acyclic normal paths start -> target (one list per path, the Cond of every switch edge
+    taken; bool locals assigned constants on the way are propagated, so a materialised `a && b` / `matches!` test reads
+    as the tests that produced it). None when there are more than `limit` paths.
+    A guard written as `if flag && !ready { return }` makes NEITHER `!flag` nor `ready` a necessary condition of the
+    code behind it (path_conditions); each path, however, carries one of them."""
+    succ = body.succ()
+    live = body.live_blocks()
+    # blocks from which target is reachable (prune the search)
+    pred = body.pred()
+    can = {target}
+    st = [target]
+    while st:
+        x = st.pop()
+        for p_ in pred[x]:
+            if p_ not in can and p_ in live:
+                can.add(p_)
+                st.append(p_)
+    out = []
+    count = [0]
+
+    def walk(bb, conds, seen):
+        if count[0] > limit:
+            return
+        if bb == target:
+            count[0] += 1
+            out.append(list(conds))
+            return
+        t = body.blocks[bb]['t']
+        if t['k'] == 'switch':
+            for tg in sorted(set(tg for _, tg in body.switch_edges(bb))):
+                if tg in seen or tg not in can:
+                    continue
+                walk(tg, conds + [Cond(body, bb, tg)], seen | {tg})
+        else:
+            for tg in succ[bb]:
+                if tg in seen or tg not in can:
+                    continue
+                walk(tg, conds, seen | {tg})
+    if start not in can:
+        return []
+    walk(start, [], {start})
+    if count[0] > limit:
+        return None
+    res = []
+    for conds in out:
+        for cv in expand_conditions(body, conds):
+            if feasible(cv):
+                res.append(cv)
+    return res
